@@ -18,6 +18,7 @@ import (
 	"fmt"
 	"math/rand"
 	"sort"
+	"strings"
 	"sync"
 	"sync/atomic"
 	"testing"
@@ -26,6 +27,7 @@ import (
 	"github.com/gotid/god/lib/logx"
 	"github.com/gotid/god/lib/timex"
 	rpccodes "github.com/gotid/god/rpc/internal/codes"
+	"google.golang.org/grpc/attributes"
 	"google.golang.org/grpc/balancer"
 	"google.golang.org/grpc/balancer/base"
 	"google.golang.org/grpc/codes"
@@ -1423,5 +1425,218 @@ func TestVerifC14RaceBigSteps(t *testing.T) {
 		}
 		m.Case(vk.Digest(desc), atomic.LoadInt64(&nDone) > 0)
 		m.Progress()
+	}
+}
+
+// ---------------------------------------------------------------------------
+// TestVerifC14SharedAddr: gRPC identifies a sub-connection by the whole
+// resolver.Address (Addr, ServerName, Attributes) — and the picker build info is
+// keyed by SubConn, not by address. Ready sets in which several SubConns share
+// the host:port string must be balanced per SubConn.
+
+type c14SharedCfg struct {
+	Family string `json:"family"` // build | registered
+	N      int    `json:"n"`
+	Groups []int  `json:"group_of_subconn"` // SubConns with the same number share Addr
+	Differ string `json:"differ"`           // servername | attributes | mixed | identical
+	Slow   int    `json:"slow"`             // index of a 25x slower SubConn, -1 none
+	Seed   int64  `json:"seed"`
+}
+
+type c14AttrKey struct{}
+
+func c14SharedAddress(cfg c14SharedCfg, i int) resolver.Address {
+	a := resolver.Address{Addr: fmt.Sprintf("10.1.0.%d:443", cfg.Groups[i])}
+	mode := cfg.Differ
+	if mode == "mixed" {
+		mode = []string{"servername", "attributes"}[i%2]
+	}
+	switch mode {
+	case "servername":
+		a.ServerName = fmt.Sprintf("svc-%d.internal", i)
+	case "attributes":
+		a.Attributes = attributes.New(c14AttrKey{}, fmt.Sprintf("zone-%d", i))
+	}
+	return a
+}
+
+// c14DriveSubConns sends sustained sequential traffic (2000 picks per virtual
+// second, up to 2 calls outstanding) through pk and judges per SubConn.
+func c14DriveSubConns(m *vk.M, desc string, pk balancer.Picker, ready []balancer.SubConn, slow int, dur time.Duration, prefix string) (picksPer []int64, ok bool) {
+	n := len(ready)
+	idx := make(map[balancer.SubConn]int, n)
+	for i, sc := range ready {
+		idx[sc] = i
+	}
+	picks, comps := make([]int64, n), make([]int64, n)
+	lastPick := make([]int64, n)
+	startT := int64(timex.Now())
+	for i := range lastPick {
+		lastPick[i] = startT
+	}
+	p, _ := pk.(*p2cPicker)
+	type pend struct {
+		conn int
+		done func(balancer.DoneInfo)
+	}
+	var q []pend
+	var maxGap int64
+	checkInflight := func(ev string) bool {
+		if p == nil {
+			return true
+		}
+		for _, c := range p.conns {
+			i, known := idx[c.conn]
+			if !known {
+				m.Violate("C14:pick:not-a-ready-conn", desc, "picker holds a connection %v that is not in the ready set", c.conn)
+				return false
+			}
+			if inf := atomic.LoadInt64(&c.inflight); inf != picks[i]-comps[i] {
+				m.Violate("C14:inflight:not-picks-minus-completions", desc, "after %s: SubConn %d (%s) inflight=%d, picks=%d completions=%d", ev, i, c.addr.Addr, inf, picks[i], comps[i])
+				return false
+			}
+		}
+		return true
+	}
+	finish := func() bool {
+		pd := q[0]
+		q = q[1:]
+		lat := 200 * time.Microsecond
+		if pd.conn == slow {
+			lat = 5 * time.Millisecond
+		}
+		timex.VerifAdvance(lat)
+		pd.done(balancer.DoneInfo{})
+		comps[pd.conn]++
+		return checkInflight("done")
+	}
+	end := startT + int64(dur)
+	var total int64
+	for int64(timex.Now()) < end {
+		now := int64(timex.Now())
+		res, err := pk.Pick(c14PickInfo)
+		total++
+		if err != nil {
+			m.Violate("C14:pick:error-with-ready-conns", desc, "Pick returned error %v with %d ready SubConns", err, n)
+			return picks, false
+		}
+		i, known := idx[res.SubConn]
+		if !known || res.Done == nil {
+			m.Violate("C14:pick:not-a-ready-conn", desc, "Pick returned SubConn %v (done nil=%v) which is not one of the %d ready SubConns", res.SubConn, res.Done == nil, n)
+			return picks, false
+		}
+		picks[i]++
+		lastPick[i] = now
+		if !checkInflight("pick") {
+			return picks, false
+		}
+		for j, lp := range lastPick {
+			g := now - lp
+			if g > maxGap {
+				maxGap = g
+			}
+			if g > int64(c14StarveWindow) {
+				m.Violate("C14:starvation:not-picked-within-window:shared-addr", desc, "ready SubConn %d was not picked for %.3fs of virtual time under sustained traffic (%d picks so far, per SubConn %v); it shares its host:port string with another ready SubConn (groups %v)", j, float64(g)/1e9, total, picks, desc[strings.Index(desc, "group_of_subconn"):])
+				return picks, false
+			}
+		}
+		q = append(q, pend{conn: i, done: res.Done})
+		for len(q) > int(total%3) {
+			if !finish() {
+				return picks, false
+			}
+		}
+		timex.VerifAdvance(300 * time.Microsecond)
+	}
+	for len(q) > 0 {
+		if !finish() {
+			return picks, false
+		}
+	}
+	m.Count(prefix+"picks", total)
+	m.Max(prefix+"max_gap_ms", maxGap/1e6)
+	return picks, true
+}
+
+func TestVerifC14SharedAddr(t *testing.T) {
+	logx.Disable()
+	m := vk.New(t, "C14", "ready sets of 2..8 SubConns in which several share the host:port string but differ in ServerName / Attributes (boundary: entirely identical Address values), (a) given directly to p2cPickerBuilder.Build, (b) produced by the registered p2c_ewma balancer over a fake ClientConn with every SubConn Ready; 6 virtual seconds of sustained traffic (2000 picks/s, one SubConn optionally 25x slower): every pick is a ready SubConn, every ready SubConn is picked at least once in every 3 virtual seconds, inflight==picks-completions per SubConn")
+	defer m.Done()
+	defer timex.VerifRealClock()
+	reps := vk.N(1, 12)
+	master := m.Rand("sharedaddr")
+	var cfgs []c14SharedCfg
+	for rep := 0; rep < reps; rep++ {
+		for _, fam := range []string{"build", "registered"} {
+			for _, differ := range []string{"servername", "attributes", "mixed", "identical"} {
+				if fam == "registered" && differ == "identical" {
+					continue // gRPC itself keeps one SubConn per distinct Address
+				}
+				for _, groups := range [][]int{{0, 0}, {0, 0, 1}, {0, 0, 0}, {0, 1, 1, 2}, {0, 0, 1, 1, 2}, {0, 0, 0, 0, 1, 2, 3, 3}} {
+					slow := -1
+					if master.Intn(2) == 0 {
+						slow = master.Intn(len(groups))
+					}
+					cfgs = append(cfgs, c14SharedCfg{Family: fam, N: len(groups), Groups: groups, Differ: differ, Slow: slow, Seed: master.Int63()})
+				}
+			}
+		}
+	}
+	bb := balancer.Get(Name)
+	for k, cfg := range cfgs {
+		idx := k + 1
+		if !m.Only(idx) {
+			continue
+		}
+		desc := fmt.Sprintf("case=%d;%s", idx, vk.JSON(cfg))
+		m.Current(desc)
+		timex.VerifFakeClock(c14Start)
+		var pk balancer.Picker
+		var ready []balancer.SubConn
+		if cfg.Family == "build" {
+			info := make(map[balancer.SubConn]base.SubConnInfo, cfg.N)
+			for i := 0; i < cfg.N; i++ {
+				sc := &c14Conn{id: i}
+				ready = append(ready, sc)
+				info[sc] = base.SubConnInfo{Address: c14SharedAddress(cfg, i)}
+			}
+			pk = new(p2cPickerBuilder).Build(base.PickerBuildInfo{ReadySCs: info})
+		} else {
+			if bb == nil {
+				m.Violate("C14:registered:builder-missing", desc, "balancer.Get(%q) returned nil", Name)
+				return
+			}
+			cc := &c14CC{}
+			b := bb.Build(cc, balancer.BuildOptions{})
+			var addrs []resolver.Address
+			for i := 0; i < cfg.N; i++ {
+				addrs = append(addrs, c14SharedAddress(cfg, i))
+			}
+			_ = b.UpdateClientConnState(balancer.ClientConnState{ResolverState: resolver.State{Addresses: addrs}})
+			if len(cc.subs) != cfg.N {
+				m.Inconclusive("case %d: base balancer created %d SubConns for %d distinct addresses", idx, len(cc.subs), cfg.N)
+				continue
+			}
+			for _, sc := range cc.subs {
+				b.UpdateSubConnState(sc, balancer.SubConnState{ConnectivityState: connectivity.Connecting})
+				b.UpdateSubConnState(sc, balancer.SubConnState{ConnectivityState: connectivity.Ready})
+				ready = append(ready, sc)
+			}
+			cc.mu.Lock()
+			pk = cc.state.Picker
+			cc.mu.Unlock()
+			defer b.Close()
+		}
+		if p, isP2c := pk.(*p2cPicker); isP2c { // reproducibility only: own PRNG, stable order
+			id := func(c *subConn) int { return c.conn.(*c14Conn).id }
+			sort.Slice(p.conns, func(i, j int) bool { return id(p.conns[i]) < id(p.conns[j]) })
+			p.r = rand.New(rand.NewSource(cfg.Seed))
+		}
+		picks, ok := c14DriveSubConns(m, desc, pk, ready, cfg.Slow, 6*time.Second, "sharedaddr_")
+		m.Count("sharedaddr_scenarios", 1)
+		if ok && m.WantSample() && cfg.N >= 3 {
+			m.Sample(map[string]any{"scenario": cfg, "picks_per_subconn": picks})
+		}
+		m.Case(vk.Digest(desc), true)
 	}
 }
